@@ -8,7 +8,8 @@ TITLE = "Built-in dissimilarities compute their documented formula in both forms
 DECIDING = ["M-FORMULA", "M-COMPILED", "M-KERNEL-VIA-CONTINUUM", "M-SYMMETRY", "M-LABEL-ORDER", "M-OLDER-INSTANCE", "M-PRE-USE"]
 LEVEL = "exploration"
 RULE = ("a case = one dissimilarity instance (every built-in class; delta_empty, alpha, beta from the documented value "
-        "sets; labels supplied sorted or shuffled; 1-300 categories; components built with the same or another "
+        "sets; labels supplied sorted or shuffled; 1-300 categories; precomputed matrices as float32, float64, integer or boolean "
+        "arrays; ordinal positions small or with a large common offset; components built with the same or another "
         "delta_empty) and 12-24 random unit pairs (ten segment families; labels from the instance's categories); for "
         "each pair: d(), the compiled value through UnitaryAlignment(...).compute_disorder and through "
         "valid_alignments on a 2-annotator continuum, the documented formula, symmetry, non-negativity, zero on "
